@@ -369,6 +369,70 @@ func mutations(part, parts int) {
 	}
 }
 
+// twoStreams: two independent record streams decoded by two threads that are
+// switched inside their Read calls (every schedule with at most two switches).
+func twoStreams() {
+	streams := [][]record{
+		{{11, []byte{0x90, 0x40, 0x7F}}, {-5, []byte{0xF8}}},
+		{{100, []byte{0xB1, 0x07, 0x01}}, {7, []byte{0xF0, 0x01, 0xF7}}},
+		{{0, []byte{0x80, 0x40, 0x00}}},
+	}
+	var iv engine.Interleaver
+	for a := range streams {
+		for b := range streams {
+			var bad [2]string
+			run := func(first, i, j int) {
+				bad = [2]string{"?", "?"}
+				body := func(k int, recs []record) func(yield func()) {
+					return func(yield func()) {
+						var sb strings.Builder
+						for _, r := range recs {
+							sb.WriteString(encode(r))
+						}
+						rd := &faultio.YieldReader{R: strings.NewReader(sb.String()), Yield: yield}
+						res, c := decodeAll(rd, len(recs)+2)
+						bad[k] = ""
+						if c.Panicked {
+							bad[k] = "panic " + c.Value
+							return
+						}
+						for x, r := range recs {
+							if x >= len(res) || !res[x].ok || res[x].rec.ts != r.ts || !bytes.Equal(res[x].rec.msg, r.msg) {
+								bad[k] = fmt.Sprintf("record %d wrong", x)
+							}
+						}
+					}
+				}
+				iv.Run(first, i, j, body(0, streams[a]), body(1, streams[b]))
+			}
+			run(0, -1, -1)
+			ya, yb := iv.Yields()
+			for first := 0; first < 2; first++ {
+				n1, n2 := ya, yb
+				if first == 1 {
+					n1, n2 = yb, ya
+				}
+				for i := 1; i <= n1; i++ {
+					for j := -1; j <= n2; j++ {
+						if j == 0 {
+							continue
+						}
+						run(first, i, j)
+						ctx.Eval()
+						ctx.Add("two_stream_schedules", 1)
+						if bad[0] != "" || bad[1] != "" {
+							if ctx.SigCount("concurrent-streams:interference") < 5 {
+								ctx.Violation("concurrent-streams:interference", map[string]interface{}{"kind": "two-streams", "a": a, "b": b, "first": first, "switch_first_at_read": i, "switch_second_at_read": j,
+									"what": fmt.Sprintf("two streams decoded by two threads switched inside Read calls: A: %q B: %q (each decodes correctly alone)", bad[0], bad[1])})
+							}
+						}
+					}
+				}
+			}
+		}
+	}
+}
+
 func main() {
 	ctx = engine.Start("C19", "exploration")
 	if ctx.ReplayPath != "" {
@@ -385,6 +449,7 @@ func main() {
 	ctx.Assume("readers fragment but never return data together with EOF and never return zero bytes")
 	ctx.Jobs("lossless", 16, func(j int) { losslessSpace(j, 16) })
 	ctx.Jobs("mutations", 16, func(j int) { mutations(j, 16) })
+	ctx.Jobs("two-streams", 1, func(int) { twoStreams() })
 	ctx.Sample(map[string]interface{}{"stream": "5 B0ZZ\\n17 C0\\n", "expect": "error for the first line, then the record (17, C0)"})
 	ctx.Sample(map[string]interface{}{"records": "(-2147483648, 90 3C 40) (7, F8)", "fragmentation": "every single and every pair of split points; one byte per call"})
 	ctx.Guard(ctx.NontrivialCount() > 1000, "too few malformed lines / split points")
